@@ -47,12 +47,16 @@ def _w(text):
             out.append(L('op', w, True))
         elif w == '*':
             out.append(L('star', '*'))
+        elif w == 'int':
+            out.append(L('type', w))
         elif w[0].isdigit():
             out.append(L('num', w))
         elif w[0] == "'":
             out.append(L('str', w.replace('_', ' ')))
         elif w.isupper():
             out.append(kw(w.replace('_', ' ')) if w not in ('SELECT', 'UPDATE', 'DELETE', 'INSERT') else L('kw', w, False, lead=w))
+        elif w in ('int',):
+            out.append(L('type', w))
         else:
             out.append(L('name', w))
     return out
@@ -62,6 +66,7 @@ CHEAP = [_w(t) for t in [
     'RETURN v', 'RETURN 1', 'v := v + 1', 'w := 0', "v := 'a;b'", 'NULL', 'CALL p ( 1 )', 'SELECT 1', 'SELECT a FROM t', 'SELECT a , b FROM t WHERE c = 2',
     'UPDATE t SET a = 1 WHERE b = 2', 'DELETE FROM t WHERE a < 3', 'INSERT INTO t VALUES ( 1 , 2 )', "INSERT INTO t VALUES ( 'x;' )",
     'SELECT CASE WHEN a = 1 THEN 2 ELSE 3 END FROM t', 'v := CASE WHEN a > 1 THEN 1 ELSE 0 END', 'SELECT * FROM t WHERE a IN ( 1 , 2 ) ORDER_BY b', 'SET v = 2',
+    'CREATE_OR_REPLACE VIEW v AS SELECT a FROM t', 'CREATE_OR_REPLACE TABLE t2 AS SELECT 1', 'CREATE TABLE t3 ( a int )', 'DROP TABLE t3', 'EXPLAIN CREATE_OR_REPLACE VIEW v AS SELECT 1',
 ]]
 
 
@@ -70,12 +75,15 @@ def simple():
     assign = st.tuples(G.plain_name, G.expr(1)).map(lambda t: seq([t[0]], L('assign', ':='), t[1]))
     ret = G.expr(0).map(lambda e: seq(kw('RETURN'), e))
     cheap = st.sampled_from(CHEAP).map(lambda x: [list(l) for l in x])
-    return st.one_of(cheap, cheap, cheap, cheap, cheap, cheap, G.select(0), G.update(), G.delete(), assign, ret, _case_select(False))
+    return st.one_of(cheap, cheap, cheap, cheap, cheap, cheap, G.select(0), G.update(), G.delete(), assign, ret, _case_select(False), G.create_table())
 
 
 @functools.lru_cache(maxsize=None)
 def stmts(depth, exclude):
-    return st.lists(stmt(depth, exclude), min_size=1, max_size=3).map(lambda xs: [l for x in xs for l in x])
+    # one block in eight starts with a nested DDL statement (CREATE [OR REPLACE] ... right after BEGIN / THEN / LOOP / DO)
+    ddl = st.sampled_from([c for c in CHEAP if c[0][1].startswith(('CREATE', 'EXPLAIN', 'DROP'))]).map(lambda x: seq([list(l) for l in x], semi()))
+    return st.tuples(st.integers(0, 7), ddl, st.lists(stmt(depth, exclude), min_size=1, max_size=3)).map(
+        lambda t: (t[1] if t[0] == 0 else []) + [l for x in t[2] for l in x])
 
 
 @functools.lru_cache(maxsize=None)
